@@ -140,6 +140,13 @@ var NameSets = [][]string{
 	{"Été", "éta", "Eta"},
 	{NameSig, NameSigEx, "Data"},    // already carries both signature streams
 	{NameSig, "Data", "abc", "ABD"}, // already carries a non-extended signature
+	// one name a proper prefix of a sibling's (the two orders a compound file is
+	// read in - directory tree order and byte-wise name order - treat these
+	// differently: the tree puts shorter names first, byte-wise comparison puts
+	// the prefix first whatever follows)
+	{"Binary.setup", "Binary.setup.ico", "Binary"},
+	{"ab", "abc", "a", "B"},
+	{"Abc", "abcd", "ABCDE", "abd"},
 }
 
 // FamilyNames: version x name set x tree construction mode.
